@@ -28,7 +28,7 @@ def run_cmd(ctx, keep, tag="bat"):
     """keep: [(case, reference verdict)]; returns ({id: batch record}, {id: CmdExe verdict}); converter disagreements are reported here"""
     wd = ctx.sub(tag)
     p0, p1 = os.path.join(wd, "c0.ndjson"), os.path.join(wd, "c1.ndjson")
-    write_ndjson(p0, [{"id": c["id"], "prog": c["prog"]} for c, v in keep])
+    write_ndjson(p0, [{"id": c["id"], "prog": c["prog"], "spell": c.get("spell", "")} for c, v in keep])
     ctx.run_vh("batch", p0, p1, os.path.join(wd, "scr"))
     bat = {c["id"]: c for c in read_ndjson(p1)}
     cmdcases = []
